@@ -1073,7 +1073,8 @@ def clenshaw_q2d_der(cns, m, usq, j=1, alphas=None):
     # a^j = j B_n * a_n+1^j+1 + (A_n + B_n x) A_n+1^j - C_n+1 a_n+2^j
     #
     # return alphas
-    for jj in range(1, j+1):
+    # a sum of N+1 terms has degree N in x: derivatives of order > N are zero
+    for jj in range(1, min(j, N)+1):
         _, b, _ = abc_q2d_clenshaw(N-jj, m)
         alphas[jj][N-jj] = jj * b * alphas[jj-1][N-jj+1]
         for n in range(N-jj-1, -1, -1):
